@@ -377,6 +377,28 @@ def rule_recognisable(ctx: Ctx, data):
            f"extractor (or the edition of a template that does not use $edition); missing: {missing[:5]}", mod=tm)
 
 
+def rule_offset_zero(ctx: Ctx):
+    """R-C01-12: 0 is a legitimate start offset (a citation at the very beginning of the text).  A start offset that is tested by truthiness
+    -- `if c.full_span_start and ..`, `c.span_start or x` -- is treated as absent there, so the components that depend on the test (the
+    shared case name of a parallel citation, the full span) come out differently for a text that merely lacks a leading character."""
+    from ..pitfalls import truth_tests
+
+    repo = ctx.repo
+    STARTS = {"full_span_start", "span_start", "pin_cite_span_start", "start"}
+    n = 0
+    for q, mod, fn in repo.all_funcs():
+        for e in truth_tests(fn):
+            n += 1
+            is_start = (isinstance(e, ast.Attribute) and e.attr in STARTS) or (
+                isinstance(e, ast.Subscript) and isinstance(e.value, ast.Call) and isinstance(e.value.func, ast.Attribute) and e.value.func.attr in ("span", "full_span")
+                and isinstance(e.slice, ast.Constant) and e.slice.value == 0)
+            if is_start:
+                ctx.ob("R-C01-12", f"{q}/truthiness-of-start:{norm(e)[:40]}", False,
+                       f"`{norm(e)}` is a start offset tested by truthiness: offset 0 (citation at the beginning of the text) counts as missing; test `is not None`",
+                       node=e, mod=mod)
+    ctx.ob("R-C01-12", "package/start-offsets-tested-for-None", True, f"{n} truth tests inspected: none is on a start offset", node=None, mod=repo.mod("models"), nontrivial=False)
+
+
 def run(ctx: Ctx):
     ctx.level = "other"
     ctx.explanation = (
@@ -413,6 +435,7 @@ def run(ctx: Ctx):
 
     ctx.guard(rule_backscan, ctx, "R-C01-10", True)
     ctx.guard(rule_no_clobber, ctx, C)
+    ctx.guard(rule_offset_zero, ctx)
     ctx.floor("R-C01-11", 2)
     ctx.floor("R-C01-10", 7)
     ctx.floor("R-C01-1", 6)
